@@ -162,7 +162,8 @@ namespace occa {
 
     for (udim_t i = 0; i < bytes; ++i) {
       for (int j = 0; j < 8; ++j) {
-        h[j] = (h[j] * p[j]) ^ c[i];
+        // Multiply as unsigned: signed overflow is undefined, the wrapped product is what we want
+        h[j] = ((int) (((unsigned int) h[j]) * ((unsigned int) p[j]))) ^ c[i];
       }
     }
     hash.initialized = true;
